@@ -76,7 +76,10 @@ fn cmd_check(id: &str, tier: Tier) -> i32 {
     // golden tier: the universes of the repository's own tests (vcore::golden), evaluated
     // with this property's oracle; for C02 also compared with the outcomes those tests pin
     let mut golden_run = 0u64;
-    if matches!(id, "C01" | "C02" | "C03" | "C04" | "C05" | "C06" | "C08" | "C10" | "C14") {
+    // VERIF_NO_REPLAY=1 (used by tools/seeded.py) skips the golden and replay tiers so that a
+    // seeded change is judged by generated search alone
+    let no_replay = std::env::var_os("VERIF_NO_REPLAY").is_some();
+    if !no_replay && matches!(id, "C01" | "C02" | "C03" | "C04" | "C05" | "C06" | "C08" | "C10" | "C14") {
         vcore::run::install_panic_hook();
         if id == "C02" {
             let bad = vcore::golden::self_check();
@@ -120,7 +123,7 @@ fn cmd_check(id: &str, tier: Tier) -> i32 {
     // replay tier: saved regression cases of this property (fixed findings, seeded changes)
     let mut replayed = 0u64;
     let reg_dir = vcore::runner::verif_root().join("regressions");
-    if let Ok(rd) = std::fs::read_dir(&reg_dir) {
+    if let Ok(rd) = std::fs::read_dir(&reg_dir).and_then(|rd| if no_replay { Err(std::io::Error::other("skipped")) } else { Ok(rd) }) {
         let mut files: Vec<_> = rd.filter_map(|e| e.ok()).map(|e| e.path()).collect();
         files.sort();
         for f in files {
